@@ -90,7 +90,9 @@ MkK(D, S, W, maxd, cd, kinds, pairs, bury, rev, mir, mode, empty) ==
   LET K0 == [D |-> D, S |-> S, W |-> W, maxd |-> maxd, cd |-> cd, kinds |-> kinds, pairs |-> pairs,
              bury |-> bury, rev |-> rev, mir |-> mir, mode |-> mode, empty |-> empty] IN
   [D |-> D, S |-> S, W |-> W, maxd |-> maxd, cd |-> cd, kinds |-> kinds, pairs |-> pairs,
-   bury |-> bury, rev |-> rev, mir |-> mir, mode |-> mode, empty |-> empty, tx |-> TxOf(K0)]
+   bury |-> bury, rev |-> rev, mir |-> mir, mode |-> mode, empty |-> empty, crash |-> FALSE, tx |-> TxOf(K0)]
+\* the alphabet also contains the crash points inside new / setup / forget requests
+WithCrash(K0, c) == [f \in DOMAIN K0 |-> IF f = "crash" THEN c ELSE K0[f]]
 
 \* block alphabet: single transactions, and pairs (creator first)
 Coherent(K, b) ==
@@ -194,6 +196,12 @@ Requests(K) ==
   \cup {Req("Heartbeat", 0, <<>>, 0), Req("Restart", 0, <<>>, 0), Req("Disconnect", 0, <<>>, 0)}
   \cup {Req("Connect", 0, b, 0) : b \in (IF K.empty THEN {<<>>} ELSE {}) \cup Blocks(K)}
   \cup {Req(op, 0, <<>>, k) : op \in {"Bury", "Unbury"}, k \in K.bury}
+  \cup (IF K.crash
+        THEN \* (k = 0 is a plain Restart: nothing of the request is durable)
+                  {Req("NewCrash", d, <<>>, 1) : d \in 1..K.maxd}
+             \cup {Req("SetupCrash", d, <<>>, 1) : d \in 1..K.maxd}
+             \cup {Req("ForgetCrash", d, <<>>, k) : d \in 1..K.maxd, k \in 1..3}
+        ELSE {})
 
 R(rc, s) == [rc |-> rc, s |-> s]
 
@@ -248,8 +256,43 @@ Repeat(K, s, req, k) ==
   ELSE LET o == IF req = "C" THEN Connect(K, s, <<>>) ELSE Disconnect(K, s) IN
        IF o.rc # "ok" THEN o ELSE Repeat(K, o.s, req, k - 1)
 
+(***************************************************************************)
+(* Crash points inside a request (plain, non-transactional store): the      *)
+(* request runs until k store writes are durable, then the signer stops; a  *)
+(* signer is restored from the store as it is; the request is never         *)
+(* answered.  Write order of the code:                                      *)
+(*   new_channel           w1 new_channel (the stub)                        *)
+(*   setup_channel (stub)  w1 update_tracker (the new listener)             *)
+(*                         w2 update_channel (the entry becomes a channel)  *)
+(*     a store with the listener but without the channel cannot be restored *)
+(*     ("some chain tracker listeners were not restored"): rc "err", no     *)
+(*     signer afterwards                                                    *)
+(*   forget_channel (ready) w1 update_channel, w2 update_tracker (the       *)
+(*                         forget flag), w3 update_node (the mark, only     *)
+(*                         when it is raised)                               *)
+(*   forget_channel (stub)  w1 update_node (the mark, only when raised),    *)
+(*                         then delete_channel                              *)
+(***************************************************************************)
+NewCrash(K, s, d, k) == IF k = 0 THEN R("ok", s) ELSE R("ok", New(K, s, d).s)
+SetupCrash(K, s, d, k) ==
+  IF s.chans[d].ph = "stub" /\ k = 1 THEN R("err", s) ELSE R("ok", s)
+ForgetCrash(K, s, d, k) ==
+  LET c == s.chans[d]
+      m == Max2(s.mark, d)
+      raise == d > s.mark IN
+  CASE c.ph = "none"  -> R("ok", s)
+    [] c.ph = "ready" -> R("ok", [s EXCEPT !.chans[d].fg = IF k >= 2 THEN TRUE ELSE @,
+                                           !.mark = IF k >= 3 THEN m ELSE @])
+    [] c.ph = "stub"  -> IF raise
+                         THEN R("ok", [s EXCEPT !.mark = IF k >= 1 THEN m ELSE @,
+                                                !.chans[d] = IF k >= 2 THEN NoChan ELSE @])
+                         ELSE R("ok", [s EXCEPT !.chans[d] = IF k >= 1 THEN NoChan ELSE @])
+
 Step(K, s, r) ==
   CASE r.op = "New"        -> New(K, s, r.d)
+    [] r.op = "NewCrash"    -> NewCrash(K, s, r.d, r.k)
+    [] r.op = "SetupCrash"  -> SetupCrash(K, s, r.d, r.k)
+    [] r.op = "ForgetCrash" -> ForgetCrash(K, s, r.d, r.k)
     [] r.op = "Setup"      -> Setup(K, s, r.d)
     [] r.op = "Forget"     -> Forget(K, s, r.d)
     [] r.op = "Heartbeat"  -> Heartbeat(K, s)
@@ -280,7 +323,8 @@ Enabled(K, s, r) ==
 (* pre / post: [h, ph] with ph : id -> "none" | "stub" | "ready"; a restart *)
 (* that fails is observed as a post state without channels.                 *)
 (***************************************************************************)
-InitGhost == [h |-> 0, ev |-> <<>>, asked |-> {}, fmax |-> 0, lost |-> {}, reused |-> {}]
+InitGhost == [h |-> 0, ev |-> <<>>, asked |-> {}, fmax |-> 0, lost |-> {}, reused |-> {},
+              pmax |-> 0, reusedc |-> {}]
 
 At(ev, id) == LET I == {i \in DOMAIN ev : id \in SeqToSet(ev[i].b)} IN
               IF I = {} THEN -1 ELSE ev[CHOOSE i \in I : TRUE].h
@@ -301,16 +345,28 @@ Ghost(K, g, r, rc, pre, post) ==
       ev1 == CASE r.op = "Connect" /\ ok /\ r.b # <<>> -> Append(g.ev, [h |-> post.h, b |-> r.b])
                [] r.op \in {"Disconnect", "Unbury"}    -> SelectSeq(g.ev, LAMBDA e : e.h <= post.h)
                [] OTHER -> g.ev
-      asked1 == IF r.op = "Forget" /\ ok /\ pre.ph[r.d] = "ready" THEN g.asked \cup {r.d} ELSE g.asked
+      \* an interrupted forget request was asked, although it was never answered
+      asked1 == IF r.op \in {"Forget", "ForgetCrash"} /\ ok /\ pre.ph[r.d] = "ready"
+                THEN g.asked \cup {r.d} ELSE g.asked
       gone   == {d \in DOMAIN pre.ph : pre.ph[d] = "ready" /\ post.ph[d] # "ready"}
       fresh  == {d \in DOMAIN pre.ph : pre.ph[d] = "none" /\ post.ph[d] # "none"}
   IN [ h |-> post.h, ev |-> ev1, asked |-> asked1,
        fmax   |-> IF r.op = "Forget" /\ ok /\ pre.ph[r.d] # "none" THEN Max2(g.fmax, r.d) ELSE g.fmax,
        lost   |-> g.lost \cup {d \in gone : ~(d \in asked1 /\ RefDone(K, ev1, post.h, d))},
-       reused |-> g.reused \cup {d \in fresh : d <= g.fmax} ]
+       reused |-> g.reused \cup {d \in fresh : d <= g.fmax},
+       \* pmax: largest id of a channel the SIGNER has forgotten on the node's request - a ready channel
+       \* it discarded (asked + buried), a stub it removed during a forget request - whether or not a
+       \* forget request for it was ever answered (crash windows)
+       pmax |-> LET P == {d \in gone : d \in asked1 /\ RefDone(K, ev1, post.h, d)}
+                         \cup (IF r.op \in {"Forget", "ForgetCrash"} /\ pre.ph[r.d] = "stub" /\ post.ph[r.d] = "none"
+                               THEN {r.d} ELSE {})
+                IN IF P = {} THEN g.pmax ELSE Max2(g.pmax, CHOOSE x \in P : \A y \in P : y <= x),
+       reusedc |-> g.reusedc \cup {d \in fresh : d <= g.pmax /\ d > g.fmax} ]
 
 Obs(s) == [h |-> s.h, ph |-> [d \in DOMAIN s.chans |-> s.chans[d].ph]]
 
 Inv_C15a(g) == g.lost = {}
 Inv_C15b(g) == g.reused = {}
+\* C15c: like C15b, for channels the signer forgot without ever answering a forget request for them
+Inv_C15c(g) == g.reusedc = {}
 =============================================================================
